@@ -9,15 +9,11 @@ import (
 	"testing"
 	"time"
 
-	"github.com/ava-labs/avalanchego/ids"
 	"github.com/ava-labs/avalanchego/utils/logging"
 
 	"github.com/ava-labs/hypersdk/auth"
 	"github.com/ava-labs/hypersdk/chain"
-	"github.com/ava-labs/hypersdk/chain/chaintest"
-	"github.com/ava-labs/hypersdk/crypto/bls"
 	"github.com/ava-labs/hypersdk/crypto/ed25519"
-	"github.com/ava-labs/hypersdk/crypto/secp256r1"
 	"github.com/ava-labs/hypersdk/internal/verifh"
 	"github.com/ava-labs/hypersdk/internal/workers"
 )
@@ -161,7 +157,7 @@ func c16WaitJob(j workers.Job, to time.Duration) string {
 }
 
 // c16Overlap runs two signature jobs on one pool (see the protocol comment).
-func c16Overlap(r *verifh.Run, t *testing.T, signer *c16Signer, l string, f []string) string {
+func c16Overlap(r *verifh.Run, t *testing.T, signer *pvSigner, l string, f []string) string {
 	if len(f) < 5 || !strings.HasPrefix(f[1], "w=") || f[3] != "A" {
 		return "bad-op"
 	}
@@ -208,11 +204,12 @@ func c16Overlap(r *verifh.Run, t *testing.T, signer *c16Signer, l string, f []st
 	build := func(toks []string, off int, wrap bool) *c16Job {
 		j := &c16Job{want: true}
 		for i, it := range toks {
-			tx := signer.tx(it[0], off+i, it[1])
+			tx := signer.item(it[:2], off+i, 0)
 			if tx.VerifyAuth(context.Background()) != nil {
 				j.want = false
 			}
-			if wrap && it[0] != 'e' {
+			_, hasEngine := auth.DefaultEngines().GetAuthBatchVerifier(tx.Auth.GetTypeID(), 1, 1)
+			if wrap && !hasEngine { // a batch engine needs the concrete auth type: such items are not wrapped / gated
 				wa := &c16Wrap{Auth: tx.Auth, onDone: func(err error) {
 					mu.Lock()
 					verified++
@@ -310,95 +307,6 @@ func c16Overlap(r *verifh.Run, t *testing.T, signer *c16Signer, l string, f []st
 	return ""
 }
 
-type c16Signer struct {
-	factories map[byte][]chain.AuthFactory
-	cache     map[string]*chain.Transaction
-}
-
-func c16NewSigner(t *testing.T) *c16Signer {
-	s := &c16Signer{factories: map[byte][]chain.AuthFactory{}, cache: map[string]*chain.Transaction{}}
-	for i := 0; i < 3; i++ {
-		ep, err := ed25519.GeneratePrivateKey()
-		if err != nil {
-			t.Fatal(err)
-		}
-		sp, err := secp256r1.GeneratePrivateKey()
-		if err != nil {
-			t.Fatal(err)
-		}
-		bp, err := bls.GeneratePrivateKey()
-		if err != nil {
-			t.Fatal(err)
-		}
-		s.factories['e'] = append(s.factories['e'], auth.NewED25519Factory(ep))
-		s.factories['s'] = append(s.factories['s'], auth.NewSECP256R1Factory(sp))
-		s.factories['b'] = append(s.factories['b'], auth.NewBLSFactory(bp))
-	}
-	return s
-}
-
-// tx returns a transaction of auth type ty for block position pos; kind 1 = correctly signed,
-// 0 = signature bytes corrupted (bls: signature of another key), 2 = signature over another message.
-func (s *c16Signer) tx(ty byte, pos int, kind byte) *chain.Transaction {
-	slot := pos % 64
-	key := fmt.Sprintf("%c/%d/%c", ty, slot, kind)
-	if tx, ok := s.cache[key]; ok {
-		return tx
-	}
-	fs := s.factories[ty]
-	f := fs[slot%len(fs)]
-	act := chaintest.NewDummyTestAction()
-	act.Nonce = uint64(slot)
-	base := chain.Base{Timestamp: int64(1_000_000 + slot*1000), ChainID: ids.ID{1, 2, 3}, MaxFee: uint64(1000 + slot)}
-	actions := []chain.Action{act}
-	td := chain.NewTxData(base, actions)
-	var a chain.Auth
-	var err error
-	switch kind {
-	case '1':
-		a, err = f.Sign(td.UnsignedBytes())
-	case '3', '4':
-		// small-order public key and R (the identity point, y = 1), S = 0 (kind 3) or S = 1 (kind 4):
-		// under the ZIP-215 rules of ed25519consensus kind 3 verifies for every message and kind 4
-		// never does; single and batch verification must agree on both.
-		e := &auth.ED25519{}
-		e.Signer[0] = 1
-		e.Signature[0] = 1
-		if kind == '4' {
-			e.Signature[32] = 1
-		}
-		a = e
-	case '2':
-		other := append(append([]byte{}, td.UnsignedBytes()...), 0x01)
-		a, err = f.Sign(other)
-	default:
-		a, err = f.Sign(td.UnsignedBytes())
-		if err == nil {
-			switch v := a.(type) {
-			case *auth.ED25519:
-				v.Signature[7] ^= 0x40
-			case *auth.SECP256R1:
-				v.Signature[9] ^= 0x40
-			case *auth.BLS:
-				var b chain.Auth
-				b, err = fs[(slot+1)%len(fs)].Sign(td.UnsignedBytes())
-				if err == nil {
-					v.Signature = b.(*auth.BLS).Signature
-				}
-			}
-		}
-	}
-	if err != nil {
-		panic(err)
-	}
-	tx, err := chain.NewTransaction(base, actions, a)
-	if err != nil {
-		panic(err)
-	}
-	s.cache[key] = tx
-	return tx
-}
-
 func TestVerifC16(t *testing.T) {
 	r := verifh.Start("C16")
 	defer r.Finish()
@@ -406,7 +314,7 @@ func TestVerifC16(t *testing.T) {
 	if lines == nil {
 		lines = append(c16Generate(r), pv16Generate(r)...)
 	}
-	signer := c16NewSigner(t)
+	signer := pvNewSigner(t)
 	var penv *pv16Env // Processor.Execute environment, built on the first `exec` op
 	hangs := 0
 	for _, l := range lines {
@@ -433,7 +341,7 @@ func TestVerifC16(t *testing.T) {
 			w, err := strconv.Atoi(f[1][2:])
 			ok := err == nil && w >= 1 && w <= 64
 			for _, it := range f[2:] {
-				if len(it) != 2 || !strings.ContainsRune("esb", rune(it[0])) || !strings.ContainsRune("01234", rune(it[1])) || (it[1] > '2' && it[0] != 'e') {
+				if !pvItemOK(it) {
 					ok = false
 				}
 			}
@@ -442,8 +350,9 @@ func TestVerifC16(t *testing.T) {
 				continue
 			}
 			txs := make([]*chain.Transaction, 0, len(f)-2)
+			pairs := pvPairs(f[2:])
 			for i, it := range f[2:] {
-				txs = append(txs, signer.tx(it[0], i, it[1]))
+				txs = append(txs, signer.item(it, i, pairs[i]))
 			}
 			var vios [][2]string
 			viol := func(key, format string, a ...any) { vios = append(vios, [2]string{key, fmt.Sprintf(format, a...)}) }
@@ -457,7 +366,7 @@ func TestVerifC16(t *testing.T) {
 				}
 			}
 			for i, it := range f[2:] {
-				if (it[1] == '1' || it[1] == '3') != (txs[i].VerifyAuth(context.Background()) == nil) {
+				if pvItemValid(it) != (txs[i].VerifyAuth(context.Background()) == nil) {
 					viol("test-vector-broken", "item %d (%s): individual verification says %v", i, it, txs[i].VerifyAuth(context.Background()))
 				}
 			}
@@ -537,6 +446,9 @@ func TestVerifC16(t *testing.T) {
 			r.Emit(l, fmt.Sprintf("%s direct=%d early=%s done=%s", status, direct, early, done))
 			for _, v := range vios {
 				r.Violation(v[0], "%s", v[1])
+			}
+			if len(vios) > 0 {
+				r.Flush() // keep the finding even if the code under test crashes the process later
 			}
 		default:
 			r.Emit(l, "bad-op")
@@ -636,6 +548,54 @@ func c16Generate(r *verifh.Run) []string {
 		out = append(out, c16Line(w, []string{"e3"}), c16Line(w, []string{"e4"}),
 			c16Line(w, []string{"e1", "e3", "e1", "e1", "e3"}), c16Line(w, []string{"e1", "e1", "e4", "e1", "e1", "e1", "e3", "e1", "e1"}),
 			"blocke"+c16Line(w, []string{"e3", "e3", "e3", "e3", "e4"})[5:])
+	}
+	// ZIP-215 edge vectors: every small-order encoding (canonical and non-canonical) as signer and as R,
+	// s = 0; single and batch verification must agree on each of them (alone and inside full batches)
+	for a := 0; a < len(pvSmallOrder); a++ {
+		out = append(out, c16Line(1+a%3, []string{fmt.Sprintf("e3.%d.%d", a, (a*5+9)%len(pvSmallOrder))}))
+		out = append(out, c16Line(2, []string{"e1", "e1", fmt.Sprintf("e3.%d.%d", (a*3+1)%len(pvSmallOrder), a), "e1", "e1"}))
+	}
+	for i := 0; i < r.N(40, 1500); i++ {
+		n := 1 + r.RNG.Intn(9)
+		it := rep("e1", n)
+		it[r.RNG.Intn(n)] = fmt.Sprintf("e3.%d.%d", r.RNG.Intn(len(pvSmallOrder)), r.RNG.Intn(len(pvSmallOrder)))
+		op := "block"
+		if r.RNG.Chance(30) {
+			op = "blocke"
+		}
+		out = append(out, op+c16Line(1+r.RNG.Intn(8), it)[5:])
+	}
+	// BLS signatures offset by opposite group elements (each invalid on its own; their sum is right):
+	// pairs at all distances among 2..10 BLS auths, 1..4 workers
+	for _, w := range []int{1, 2, 3, 4} {
+		for _, n := range []int{2, 4, 5, 8, 10} {
+			for _, pq := range [][2]int{{0, 1}, {0, n - 1}, {n / 2, n/2 + 1}, {1, 3}} {
+				if pq[0] == pq[1] || pq[1] >= n || pq[0] >= n {
+					continue
+				}
+				it := rep("b1", n)
+				it[pq[0]], it[pq[1]] = "b5", "b6"
+				out = append(out, c16Line(w, it))
+			}
+		}
+	}
+	for i := 0; i < r.N(30, 1000); i++ {
+		n := 2 + r.RNG.Intn(10)
+		it := make([]string, n)
+		for j := range it {
+			it[j] = string("bbbes"[r.RNG.Intn(5)]) + "1"
+		}
+		var bpos []int
+		for j := range it {
+			if it[j][0] == 'b' {
+				bpos = append(bpos, j)
+			}
+		}
+		if len(bpos) >= 2 {
+			x := r.RNG.Intn(len(bpos) - 1)
+			it[bpos[x]], it[bpos[x+1+r.RNG.Intn(len(bpos)-1-x)]] = "b5", "b6"
+		}
+		out = append(out, c16Line(1+r.RNG.Intn(4), it))
 	}
 	nrand := r.N(500, 12000)
 	for i := 0; i < nrand; i++ {
